@@ -95,7 +95,8 @@ package doccomposer
 //@   loop 1
 //@     invariant arrOf(newPublicKeys) == 0 || (arrOf(newPublicKeys) != arrOf(addPublicKeys) && arrOf(newPublicKeys) != arrOf(old(pkArr(doc["publicKey"]))))
 //@     invariant len(newPublicKeys) >= len(old(pkArr(doc["publicKey"])))
-//@     invariant forall q int :: 0 <= q && q < len(old(pkArr(doc["publicKey"]))) ==> idOf(newPublicKeys[q]) == idOf(old(pkArr(doc["publicKey"]))[q]) && (newPublicKeys[q] == old(pkArr(doc["publicKey"]))[q] || (exists a int :: 0 <= a && a < _k && newPublicKeys[q] == addPublicKeys[a]))
+//@     invariant forall q int :: 0 <= q && q < len(old(pkArr(doc["publicKey"]))) ==> idOf(newPublicKeys[q]) == idOf(old(pkArr(doc["publicKey"]))[q])
+//@     invariant forall q int :: 0 <= q && q < len(old(pkArr(doc["publicKey"]))) ==> newPublicKeys[q] == old(pkArr(doc["publicKey"]))[q] || (exists a int :: 0 <= a && a < _k && newPublicKeys[q] == addPublicKeys[a])
 //@     invariant forall q int :: len(old(pkArr(doc["publicKey"]))) <= q && q < len(newPublicKeys) ==> (exists a int :: 0 <= a && a < _k && newPublicKeys[q] == addPublicKeys[a])
 //@     invariant forall q int :: 0 <= q && q < len(old(pkArr(doc["publicKey"]))) && (forall a int :: 0 <= a && a < _k ==> idOf(addPublicKeys[a]) != idOf(old(pkArr(doc["publicKey"]))[q])) ==> newPublicKeys[q] == old(pkArr(doc["publicKey"]))[q]
 //@     invariant forall q int :: 0 <= q && q < len(old(pkArr(doc["publicKey"]))) && (exists a int :: 0 <= a && a < _k && idOf(addPublicKeys[a]) == idOf(old(pkArr(doc["publicKey"]))[q])) ==> (exists a int :: 0 <= a && a < _k && newPublicKeys[q] == addPublicKeys[a])
@@ -162,7 +163,8 @@ package doccomposer
 //@   loop 1
 //@     invariant arrOf(newServices) == 0 || (arrOf(newServices) != arrOf(addServices) && arrOf(newServices) != arrOf(old(svcArr(doc["service"]))))
 //@     invariant len(newServices) >= len(old(svcArr(doc["service"])))
-//@     invariant forall q int :: 0 <= q && q < len(old(svcArr(doc["service"]))) ==> idOf(newServices[q]) == idOf(old(svcArr(doc["service"]))[q]) && (newServices[q] == old(svcArr(doc["service"]))[q] || (exists a int :: 0 <= a && a < _k && newServices[q] == addServices[a]))
+//@     invariant forall q int :: 0 <= q && q < len(old(svcArr(doc["service"]))) ==> idOf(newServices[q]) == idOf(old(svcArr(doc["service"]))[q])
+//@     invariant forall q int :: 0 <= q && q < len(old(svcArr(doc["service"]))) ==> newServices[q] == old(svcArr(doc["service"]))[q] || (exists a int :: 0 <= a && a < _k && newServices[q] == addServices[a])
 //@     invariant forall q int :: len(old(svcArr(doc["service"]))) <= q && q < len(newServices) ==> (exists a int :: 0 <= a && a < _k && newServices[q] == addServices[a])
 //@     invariant forall q int :: 0 <= q && q < len(old(svcArr(doc["service"]))) && (forall a int :: 0 <= a && a < _k ==> idOf(addServices[a]) != idOf(old(svcArr(doc["service"]))[q])) ==> newServices[q] == old(svcArr(doc["service"]))[q]
 //@     invariant forall q int :: 0 <= q && q < len(old(svcArr(doc["service"]))) && (exists a int :: 0 <= a && a < _k && idOf(addServices[a]) == idOf(old(svcArr(doc["service"]))[q])) ==> (exists a int :: 0 <= a && a < _k && newServices[q] == addServices[a])
